@@ -818,7 +818,56 @@ def gen_lqibe(rng, n, tier):
     L.append("#EXPAND-UNMARSHAL")
     return L
 
-GROUPS = {"bigint": gen_bigint, "fp": gen_fp, "tower": gen_tower, "curve": gen_curve, "scalar": gen_scalar, "gt": gen_gt,
+def gen_asm(rng, n, tier):
+    """direct calls of every x86-64 routine, both families; operands from the same boundary lists as the portable code"""
+    L = []
+    bits = 384; top = 1 << bits
+    bv = boundary_ints(bits, rng); bq = boundary_ints(bits, rng, Q)
+    pairs = [(rng.choice(bv), rng.choice(bv)) for _ in range(n)] + [(rng.getrandbits(bits), rng.getrandbits(bits)) for _ in range(n)]
+    for a in bv[:30]:
+        pairs += [(a, (top - a) % top), (a, (top - 1 - a) % top), (a, a), (a, 0), (a, 1), (a, top - 1)]
+    for _ in range(n // 2 + 1):
+        k = rng.choice([64, 128, 192, 256, 320])
+        pairs.append(((rng.getrandbits(bits - k) << k) | ((1 << k) - 1), rng.randrange(1, 4)))
+        pairs.append((rng.getrandbits(bits - k) << k, rng.randrange(1, 4)))
+    for (a, b) in pairs:
+        al = rng.choice(["n", "a"])
+        L.append("asm add %s %s %s" % (hx(a, bits), hx(b, bits), al)); L.append("asm sub %s %s %s" % (hx(a, bits), hx(b, bits), al))
+    for a in bv + [rng.getrandbits(bits) for _ in range(n)]:
+        L.append("asm dbl %s %s" % (hx(a, bits), rng.choice(["n", "a"])))
+    qp = pairs_with_boundary_sums(Q, bits, rng, max(4, n // 3)) + [(rng.choice(bq), rng.choice(bq)) for _ in range(n)] + [(rng.randrange(Q), rng.randrange(Q)) for _ in range(n)]
+    # sums / doubles whose top word equals the top word of q (the early-decision compare of the assembly)
+    topw = Q >> 320
+    for _ in range(n):
+        s_ = (topw << 320) | rng.getrandbits(320)
+        a = rng.randrange(max(0, s_ - Q + 1), min(Q, s_ + 1)); b = s_ - a
+        if 0 <= b < Q: qp.append((a, b))
+        for d in (s_ // 2, (s_ + 1) // 2):
+            if d < Q: qp.append((d, d))
+    for (a, b) in qp:
+        al = rng.choice(["n", "a"])
+        L.append("asm fpadd %s %s %s" % (hx(a, bits), hx(b, bits), al)); L.append("asm fpsub %s %s %s" % (hx(a, bits), hx(b, bits), al))
+        L.append("asm fpdbl %s %s" % (hx(a, bits), rng.choice(["n", "a"])))
+    for fam in ("base", "bmi2"):
+        for (a, b) in [(rng.choice(bv), rng.choice(bv)) for _ in range(n)] + [(rng.getrandbits(bits), rng.getrandbits(bits)) for _ in range(n)] + [(top - 1, top - 1), (0, top - 1), (1, 1)]:
+            L.append("asm mul %s %s %s" % (fam, hx(a, bits), hx(b, bits)))
+            L.append("asm sqr %s %s" % (fam, hx(a, bits)))
+        topT = Q << bits
+        ts = [0, 1, topT - 1, (Q - 1) << bits, ((Q - 1) << bits) | (top - 1), Q, Q * Q, (Q - 1) * (Q - 1), top - 1] + [rng.randrange(topT) for _ in range(2 * n)]
+        ts += [Q * m for m in (1, 2, top - 1, 1 << (bits - 1))]
+        # reductions whose unreduced result has the top word of q (result in [topw<<320, q) or [q, (topw+1)<<320)): T = v*R mod ... built from v
+        Rinv = pow(1 << bits, -1, Q)
+        for _ in range(3 * n):
+            v = (topw << 320) | rng.getrandbits(320)     # desired Montgomery output (before/after final subtraction)
+            if v >= Q: v -= Q
+            # T ≡ v·R (mod q) with T < q·R: take T = v·R mod q·... simplest: T = (v * R) % (q*R) is v*R itself when v<q
+            ts.append(v << bits)
+            ts.append(((v << bits) + Q * rng.getrandbits(380)) % topT)
+        for t in ts:
+            if t < topT: L.append("asm mred %s %s" % (fam, hx(t, 768)))
+    return L
+
+GROUPS = {"asm": gen_asm, "bigint": gen_bigint, "fp": gen_fp, "tower": gen_tower, "curve": gen_curve, "scalar": gen_scalar, "gt": gen_gt,
           "pairing": gen_pairing, "encoding": gen_encoding, "sampling": gen_sampling, "capi": gen_capi, "wkdibe": gen_wkdibe, "marshal": gen_marshal, "lqibe": gen_lqibe}
 
 def generate(group, seed, n, tier):
